@@ -10,8 +10,13 @@ From Coq Require Import Lia List.
 Import ListNotations.
 Open Scope N_scope.
 
+Definition template_lit : bstr := Eval vm_compute in b "template ".
+Definition format_lit : bstr := Eval vm_compute in b "template %s:%d:%d: %s".
+Lemma format_lit_is : parser_error_prefix_format = format_lit.
+Proof. vm_compute. reflexivity. Qed.
+
 Definition prefix_text (name : bstr) (line col : N) : bstr :=
-  b "template " ++ name ++ [58] ++ dec_of_N line ++ [58] ++ dec_of_N col ++ [58; 32].
+  template_lit ++ name ++ [58] ++ dec_of_N line ++ [58] ++ dec_of_N col ++ [58; 32].
 
 Lemma option_map_some {A B} (f : A -> B) o x : o = Some x -> option_map f o = Some (f x).
 Proof. intros ->. reflexivity. Qed.
@@ -22,10 +27,9 @@ Proof. cbn. rewrite app_nil_r. reflexivity. Qed.
 Theorem error_format_is name line col body :
   error_format name line col body = Some (prefix_text name line col ++ body).
 Proof.
-  unfold error_format. rewrite error_prefix_format_is. unfold prefix_text.
-  cbn [bytes_of_string sprintf option_map app].
-  repeat (cbn [sprintf option_map]; try reflexivity).
-  cbn. rewrite ?app_nil_r. repeat rewrite <- app_assoc. reflexivity.
+  unfold error_format. rewrite format_lit_is. unfold prefix_text, format_lit, template_lit.
+  cbn [sprintf option_map]. rewrite app_nil_r. f_equal. cbn [app]. f_equal. f_equal. f_equal. f_equal. f_equal. f_equal. f_equal. f_equal. f_equal.
+  repeat (rewrite <- app_assoc; cbn [app]). reflexivity.
 Qed.
 
 Corollary error_prefix_is name line col : error_prefix name line col = Some (prefix_text name line col).
@@ -36,7 +40,7 @@ Lemma dec_digits_digits fuel : forall n acc, Forall (fun c => 48 <= c <= 57) acc
 Proof.
   induction fuel as [|f IH]; intros n acc H; cbn [dec_digits]; [exact H|].
   assert (Hd : Forall (fun c => 48 <= c <= 57) ((48 + n mod 10) :: acc)).
-  { constructor; [|exact H]. pose proof (N.mod_upper_bound n 10 ltac:(lia)). lia. }
+  { constructor; [|exact H]. pose proof (N.mod_upper_bound n 10 ltac:(discriminate)) as Hm. generalize dependent (n mod 10). intros m Hm. lia. }
   destruct (n / 10 =? 0); [exact Hd|apply IH; exact Hd].
 Qed.
 Lemma dec_of_N_no_percent n : ~ In 37 (dec_of_N n).
@@ -48,7 +52,7 @@ Qed.
 Lemma prefix_text_no_percent name line col : ~ In 37 name -> ~ In 37 (prefix_text name line col).
 Proof.
   intros Hn H. unfold prefix_text in H. repeat (apply in_app_or in H; destruct H as [H|H]).
-  - vm_compute in H. repeat (destruct H as [H|H]; [discriminate H|]). exact H.
+  - unfold template_lit in H. cbn [In] in H. repeat (destruct H as [H|H]; [discriminate H|]). exact H.
   - exact (Hn H).
   - cbn in H. destruct H as [H|[]]. discriminate.
   - exact (dec_of_N_no_percent _ H).
@@ -73,6 +77,6 @@ Proof.
   intros Hn e. unfold e, error_at. cbn [pe_file pe_line pe_col pe_text].
   rewrite error_format_is. cbn [option_map]. rewrite (fmt2_literal _ _ (prefix_text_no_percent name line col Hn)).
   repeat split. intros text E. inversion E; subst; clear E.
-  exists (b "template "), ([58; 32] ++ fmt2 body). unfold prefix_text. repeat rewrite <- app_assoc. reflexivity.
+  exists template_lit, ([58; 32] ++ fmt2 body). unfold prefix_text, template_lit. cbn [app]. repeat (rewrite <- app_assoc; cbn [app]). reflexivity.
 Qed.
 End Text.
